@@ -101,6 +101,60 @@ def origin(v, env, pops, fetches, depth=0):
     return v[0]
 
 
+def _plain(x):
+    """value of a checked or unchecked arithmetic result"""
+    x = uncast(x)
+    if x[0] == 'field' and x[2] == '0' and x[1][0] == 'binop' and x[1][1].endswith('WithOverflow'):
+        return ('binop', x[1][1][:-12], x[1][2], x[1][3])
+    return x
+
+
+def _stack_ref(F, p, v):
+    """is v a reference to the VM's operand stack (self.stack)"""
+    vm = F.adt('vm::VM')
+    idx = next((i for i, f in enumerate(vm['variants'][0]['fields']) if f['name'] == 'stack'), None)
+    v = uncast(v)
+    for _ in range(6):
+        if v[0] == 'ref' and v[1] in p.env and p.env[v[1]][0] in ('ref', 'cast'):
+            v = uncast(p.env[v[1]])
+        else:
+            break
+    return idx is not None and v[0] == 'ref' and v[1] == '_1.*.f%d' % idx
+
+
+def _is_stack_len(F, p, v):
+    v = uncast(v)
+    return v[0] == 'call' and v[1].endswith('Vec::<T, A>::len') and v[2] and _stack_ref(F, p, v[2][0])
+
+
+BULK = {'::resize': 'push', '::split_off': 'pop', '::drain': 'pop', '::truncate': 'pop'}
+
+
+def bulk_effect(F, p, c):
+    """('push'|'pop', amount) for a bulk Vec operation on self.stack, 'unknown' when its amount cannot be read, None otherwise"""
+    n = c[1]
+    kind = next((k for sfx, k in BULK.items() if n.endswith(sfx) and 'Vec' in n), None)
+    if kind is None or not c[2] or not _stack_ref(F, p, c[2][0]) or len(c[2]) < 2:
+        return None
+    a = c[2][1]
+    if n.endswith('::drain'):
+        a = uncast(a)
+        if a[0] == 'agg' and str(a[1]).endswith('RangeFrom') and a[3]:
+            a = a[3][0]
+        else:
+            return 'unknown'
+    a = _plain(a)
+    if a[0] != 'binop':
+        return 'unknown'
+    if kind == 'push' and a[1] == 'Add':
+        for x, y in ((a[2], a[3]), (a[3], a[2])):
+            if _is_stack_len(F, p, x):
+                return ('push', y)
+    if kind == 'pop' and a[1] == 'Sub' and _is_stack_len(F, p, a[2]):
+        return ('pop', a[3])
+    return 'unknown'
+
+
 def vmx(ctx, config='default'):
     def build():
         F = ctx.facts(config)
@@ -152,6 +206,18 @@ def vmx(ctx, config='default'):
                         lp[h] = {'iters': iters, 'pops': np_, 'pushes': nq_,
                                  'trip': origin(trip[1], p.env, pop_blocks, fetch_blocks) if trip else None,
                                  'trip_from': origin(trip[0], p.env, pop_blocks, fetch_blocks) if trip else None}
+                # bulk operations on the operand stack count as one-iteration loops: resize(len + k) pushes k,
+                # split_off / drain / truncate (len - n) pop n
+                for c in p.calls:
+                    be = bulk_effect(F, p, c)
+                    if be is None:
+                        continue
+                    if be == 'unknown':
+                        lp['bulk@%d' % c[0]] = {'iters': 1, 'pops': 0, 'pushes': 0, 'trip': 'unknown bulk stack operation %s' % c[1].split('::')[-1], 'trip_from': None, 'unknown': True}
+                        continue
+                    kind_, amount = be
+                    lp['bulk@%d' % c[0]] = {'iters': 1, 'pops': 1 if kind_ == 'pop' else 0, 'pushes': 1 if kind_ == 'push' else 0,
+                                           'trip': origin(amount, p.env, pop_blocks, fetch_blocks), 'trip_from': '0', 'bulk': c[1]}
                 # calls with argument origins (object layer, helpers, gc)
                 interesting = []
                 for c in p.calls:
@@ -197,6 +263,10 @@ def summarize(arm):
     if len(fetches) != 1:
         probs.append('continue-paths fetch different operand widths: %s' % sorted(fetches))
     fetch = sorted(fetches)[0]
+    for r in arm['paths']:
+        for l in r['loops'].values():
+            if l.get('unknown') and l['trip'] not in probs:
+                probs.append(l['trip'])
     if any(r['fetch_in_loop'] for r in arm['paths']):
         probs.append('operand fetch inside a loop')
     for r in errs:
